@@ -46,9 +46,14 @@ def classifyWord (w : Word) : Tok :=
   else if w = Gen.C02.loopKw then .loop
   else .lit w
 
+/-- `str.strip()` of the comment text (`line[index + 1:].strip()`), right end first -/
+def rstripWs (c : List Char) : List Char := (c.reverse.dropWhile isWs).reverse
+def stripWs (c : List Char) : List Char := (rstripWs c).dropWhile isWs
+
+/-- the tokens of one line; the value of a COMMENT token is the stripped text after `#` -/
 def lineToks (l : List Char) : List Tok :=
   let r := tokenizeLine l
-  r.1.map classifyWord ++ (match r.2 with | some c => [Tok.comment c] | none => []) ++ [Tok.newline]
+  r.1.map classifyWord ++ (match r.2 with | some c => [Tok.comment (stripWs c)] | none => []) ++ [Tok.newline]
 
 /-- `text.split("\n")` -/
 def splitGo (cur : List Char) : List Char → List (List Char)
@@ -192,14 +197,32 @@ def dropSign (w : Word) : Word :=
   | '-' :: r => r
   | _ => w
 
-/-- plain decimal number `[+-]?(d+[.d*]|.d+)([eE][+-]?d+)?` — the tokens `pandas.to_numeric`
-turns into numbers (besides `inf`/`infinity`, which no generator produces in a deciding role) -/
-def isNumTok (w : Word) : Bool :=
+/-- plain decimal number `[+-]?(d+[.d*]|.d+)([eE][+-]?d+)?` -/
+def isDecTok (w : Word) : Bool :=
   let u := dropSign w
   let m := u.takeWhile (fun c => c != 'e' && c != 'E')
   match u.dropWhile (fun c => c != 'e' && c != 'E') with
   | [] => isMantissa m
   | _ :: ex => isMantissa m && allDigits (dropSign ex)
+
+/-- `w` spells the pattern, every letter in lower or upper case -/
+def matchCI : Word → List (Char × Char) → Bool
+  | [], [] => true
+  | c :: cs, p :: ps => (c == p.1 || c == p.2) && matchCI cs ps
+  | _, _ => false
+
+def infPat : List (Char × Char) := [('i', 'I'), ('n', 'N'), ('f', 'F')]
+def infinityPat : List (Char × Char) := infPat ++ [('i', 'I'), ('n', 'N'), ('i', 'I'), ('t', 'T'), ('y', 'Y')]
+
+/-- `inf` / `infinity` in any letter case -/
+def isInfBody (w : Word) : Bool := matchCI w infPat || matchCI w infinityPat
+
+/-- `[+-]?(inf|infinity)`, case-insensitive -/
+def isInfTok (w : Word) : Bool := isInfBody (dropSign w)
+
+/-- the tokens `pandas.to_numeric` turns into numbers: decimal literals and the spellings of
+infinity (`nan` is *not* among them: `to_numeric` raises on it and the column stays text) -/
+def isNumTok (w : Word) : Bool := isDecTok w || isInfTok w
 
 def column (rows : List (List Word)) (j : Nat) : List Word := rows.map (fun r => r.getD j [])
 
